@@ -986,7 +986,7 @@ class ModelFeatures:
         lhs = self._extract_covariates()
         rhs = other._extract_covariates()
         # Should OPTIONAL be ignored?
-        return all(c in rhs for c in lhs)
+        return lhs == rhs
 
     def _extract_peripherals(self):
         peripheral_dict = {"MET": set(), "DRUG": set()}
